@@ -1655,6 +1655,33 @@ def shared_state(R, RID):
                  'the default value of parameter %s of %s is one %s shared by every call, and it is modified / kept '
                  '(%s)' % (arg.arg, fq, what, bad[0][1] if bad else ''), func=fi, node=(bad[0][0] if bad else d),
                  construct='shared default %s(%s)' % (fq, arg.arg))
+    # module-level containers: one object per process
+    n_glob = 0
+    for mname, m in sorted(prog.modules.items()):
+        if m.name.startswith('examples'):
+            continue
+        for st in m.tree.body:
+            if not (isinstance(st, ast.Assign) and len(st.targets) == 1 and isinstance(st.targets[0], ast.Name)):
+                continue
+            what = _mutable_value(st.value)
+            if not what:
+                continue
+            gname = st.targets[0].id
+            n_glob += 1
+            bad = []
+            for fq, fi in sorted(prog.funcs.items()):
+                if fi.module is not m or gname in R.types.locals_of(fi):
+                    continue
+
+                def is_ref(n, nm=gname):
+                    return isinstance(n, ast.Name) and n.id == nm
+                for (n, k) in _object_uses(fi.node, is_ref):
+                    bad.append((fi, n, k))
+            R.ob(RID, 'module-level %s.%s is only read' % (m.name, gname), not bad,
+                 '%s.%s is one %s for the whole process, and it is modified / handed out (%s in %s): state leaks between '
+                 'connections' % (m.name, gname, what, bad[0][2] if bad else '', bad[0][0].qual if bad else ''),
+                 func=(bad[0][0] if bad else None), node=(bad[0][1] if bad else st),
+                 construct='shared module object %s.%s' % (m.name, gname))
     R.ob(RID, 'per-instance state scan', n_cls >= 40 and n_fn >= 150, 'scanned %d classes, %d functions' % (n_cls, n_fn),
          func=None, node=None, construct='shared state scan')
 
@@ -2334,3 +2361,45 @@ def event_names(R, RID):
     R.ob(RID, 'event names are distinct', not dup, 'event classes share a name: %s' % dup, func=None, node=None,
          construct='event name table')
     need(n >= 10, 'event classes not found')
+
+
+LAZY_BUILTINS = ('map', 'filter', 'zip', 'iter', 'reversed', 'enumerate', 'chain', 'islice', 'imap', 'izip', 'ifilter')
+
+
+def oneshot_fields(R, RID):
+    """A field that is read again on a later connect() (options, header lists, protocol offers) must hold a value that can
+    be read again: no field is bound to a one-shot iterator - map() / filter() / zip() / iter() / a generator expression
+    are exhausted by their first consumer, and stay truthy."""
+    n = 0
+    for q, fi in sorted(R.prog.funcs.items()):
+        if fi.module.name.startswith('examples') or fi.cls is None:
+            continue
+        for x in own_nodes(fi.node):
+            if not isinstance(x, ast.Assign):
+                continue
+            tg = [t for t in x.targets if isinstance(t, ast.Attribute) and isinstance(t.value, ast.Name) and t.value.id == 'self']
+            if not tg:
+                continue
+            n += 1
+            arms = [x.value]
+            lazy = []
+            while arms:
+                v = arms.pop()
+                if isinstance(v, ast.IfExp):
+                    arms += [v.body, v.orelse]
+                elif isinstance(v, ast.BoolOp):
+                    arms += list(v.values)
+                elif isinstance(v, ast.GeneratorExp):
+                    lazy.append(v)
+                elif isinstance(v, ast.Call) and U(v.func).split('.')[-1] in LAZY_BUILTINS and (
+                        isinstance(v.func, ast.Name) or U(v.func).startswith(('itertools.', 'six.moves.'))):
+                    if not (isinstance(v.func, ast.Name) and R.prog.lookup(fi.module, v.func.id) and
+                            R.prog.lookup(fi.module, v.func.id)[0] in ('func', 'class')):
+                        lazy.append(v)
+            if lazy:
+                R.ob(RID, '%s holds a re-readable value' % U(tg[0]), False,
+                     '%s is bound to the one-shot iterator %s in %s: its first consumer exhausts it, every later read (the next '
+                     'connect() on the same object) sees it empty although it is still truthy' % (U(tg[0]), U(lazy[0])[:80], q),
+                     func=fi, node=x, construct='one-shot iterator stored in %s.%s' % (fi.cls.qual, tg[0].attr))
+    R.ob(RID, 'no field holds a one-shot iterator', True, '', func=None, node=None, construct='one-shot iterator fields')
+    need(n >= 50, 'field stores not found')
